@@ -157,8 +157,8 @@ def P_C04 (p : Program) (r : Result) : List String :=
 
 /-! ### C05 -/
 
-def c05Outcomes : Nat := 6
-def c05Fuel : Nat := 600
+def c05Outcomes : Nat := 5
+def c05Fuel : Nat := 400
 
 def P_C05 (p : Program) (r : Result) : List String :=
   if !acceptedWF p r then [] else
@@ -223,27 +223,33 @@ def P_C16 (group : List (Program × Result)) : List String :=
 
 def isRNF (e : Err) : Bool := e.kind == .returnNotFound
 
+/-- number of errors an empty body produces: a duplicated parameter name is a body error -/
+def stubErrCount (f : FnDecl) : Nat := if nodupB (f.params.map (·.1)) then 1 else 2
+
 /-- group layout: base, all bodies stubbed (empty), then for every function `i` the program with
 all *other* bodies stubbed, then for every function `i` the program with all other bodies replaced
 by bodies of another program -/
 def P_C17 (group : List (Program × Result)) : List String :=
   match group with
   | (p0, r0) :: (_, rs) :: rest =>
-    if r0.panic.isSome || rest.any (·.2.panic.isSome) then [] else
-    let n := p0.fnDecls.length
+    if r0.panic.isSome || rs.panic.isSome || rest.any (·.2.panic.isSome) then [] else
+    let fns := p0.fnDecls
+    let n := fns.length
     if rest.length != 2 * n then ["c17:harness-group-layout"] else
     let stubV := rest.take n
     let randV := rest.drop n
-    let d := rs.errors.take (rs.errors.length - n)
-    let tailOk := (rs.errors.drop (rs.errors.length - n)).all isRNF && rs.errors.length ≥ n
+    let lens := fns.map stubErrCount
+    let total := lens.sum
+    let d := rs.errors.take (rs.errors.length - total)
+    let stubsOk := rs.errors.length ≥ total
     let segs := stubV.zipIdx.map fun ((_, r), i) =>
-      -- errors = d ++ RNF^i ++ E_i ++ RNF^(n-i-1)
-      let body := (r.errors.drop (d.length + i))
-      body.take (body.length - (n - i - 1))
+      let before := (lens.take i).sum
+      let after := (lens.drop (i + 1)).sum
+      let body := r.errors.drop (d.length + before)
+      body.take (body.length - after)
     let shapeOk := stubV.zipIdx.all fun ((_, r), i) =>
-      r.errors.take d.length == d && ((r.errors.drop d.length).take i).all isRNF &&
-      (r.errors.drop (r.errors.length - (n - i - 1))).all isRNF && r.errors.length ≥ d.length + n - 1
-    (if tailOk && shapeOk then [] else ["c17:stubbed-programs-do-not-report-declaration-errors-then-one-ReturnNotFound-per-stub"]) ++
+      r.errors.take d.length == d && r.errors.length ≥ d.length + (lens.take i).sum + (lens.drop (i + 1)).sum
+    (if stubsOk && shapeOk then [] else ["c17:stubbed-programs-do-not-start-with-the-declaration-errors"]) ++
     (if r0.errors == d ++ segs.flatten then [] else ["c17:error-list-is-not-declaration-errors-followed-by-body-errors-in-order"]) ++
     ((stubV ++ randV).zipIdx.flatMap fun ((_, r), k) =>
       let i := k % n
